@@ -49,6 +49,17 @@ def run(ctx, rep):
     rep.floor('C02.R2', 'literal-set obligations', n, 1000)
     r3(ctx, rep)
     fairness_rule(ctx, rep)
+    from . import c08
+    R5 = rep.rule('C02.R5', 'the evaluator the countermodel test relies on is compositional and frame-correct (all C08 rules)')
+    sub = Report('C08', rep.tier, rep.repo)
+    c08.run(ctx, sub)
+    for _ in range(sum(r['instances'] for r in sub.rules.values())):
+        rep.instance(R5, ok=True)
+    rep.consulted |= sub.consulted
+    for f in sub.findings:
+        rep.rules[R5]['failed'] += 1
+        rep.discharged -= 1
+        rep.finding(R5, f.key.replace('C08.', 'C02.R5/C08.', 1), f.where, f.construct, f.msg)
 
 
 def r3(ctx, rep):
